@@ -9,7 +9,7 @@ import numpy as np
 
 from .. import alph
 from .. import oracles as O
-from ..core import CaseResult, bind_repo
+from ..core import CaseResult, bind_repo, variants
 
 PROP = "C08"
 LEVEL = "exploration"
@@ -56,7 +56,9 @@ def cases(tier, seed):
             cells = cells[:1] if g.crystal_system not in ("triclinic", "monoclinic") else [cells[0], cells[2]]
         for ci, cell in enumerate(cells):
             for part in ("general", "special") + (("history",) if ci == 0 and (tier == "thorough" or no in HIST_GROUPS) else ()):
-                cs.append({"no": no, "cc": cc, "name": names[(no, cc)][ci % len(names[(no, cc)])], "cell": cell, "part": part, "tier": tier})
+                # general / history: compact names; special positions: the symbol written with blanks between its elements ('P 3 1 2')
+                nm = O.HM[no] + (" R" if cc == "rhombohedral" else "") if part == "special" else names[(no, cc)][ci % len(names[(no, cc)])]
+                cs.append({"no": no, "cc": cc, "name": nm, "cell": cell, "part": part, "tier": tier})
     return cs
 
 
@@ -70,7 +72,7 @@ def check_case(case):
 
     r = CaseResult()
     name, cell = case["name"], case["cell"]
-    g = sg.sg(sgname=name)
+    g = sg.sg(sgno=case["no"], cell_choice=case["cc"])  # the group the name DENOTES (harness table oracles.HM), not whatever the name resolves to
     ops = O.exact_ops(g)
     Gi = O.recip_metric(cell)
     astar = np.sqrt(np.diag(Gi))
@@ -152,6 +154,12 @@ def check_case(case):
                         dv = float("inf")
                     r.check("cell-argkind/scale", dv, 1e-5 if kn.startswith("float32") else 1e-9, "%s:cell as %s:h=%s" % (tag, kn, h),
                             "StructureFactor = explicit sum for a cell given as %s" % kn)
+            # the same through the general probe: hkl and cell in every kind, positionally and by keyword
+            atoms_k = make_atoms(structure, spec)
+            dv2 = lambda a, b: max(abs(a[0] - b[0]), abs(a[1] - b[1])) / scale2
+            for h in ((1, 2, 3), (0, 0, 2)):
+                for pos in (0, 1):
+                    variants(r, "%s:StructureFactor:h=%s" % (tag, h), structure.StructureFactor, [list(h), fcell, name, atoms_k, DISP_FULL], pos, 1e-9, 1e-5, dev=dv2)
         finally:
             np.set_printoptions(**old)
         r.states = len(H) * 5 + len(hk) * 3
